@@ -14,6 +14,7 @@ import (
 
 	"verif/checks/tutil"
 	"verif/engine/core"
+	"verif/ref/poolpoison"
 	"verif/ref/tbin"
 )
 
@@ -916,6 +917,9 @@ func (c *ctx) checkMarshal(site string, tree *generic.PathNode, want *tbin.Val, 
 	if err != nil {
 		c.viol(site+".Marshal", "error", "%v", err)
 		return
+	}
+	if poolpoison.Aliased(out) {
+		c.viol(site+".Marshal", "result-aliases-pooled-buffer", "the %d bytes returned by Marshal change when the pooled buffers are overwritten", len(out))
 	}
 	c.compare(site+".Marshal", out, want, input, identical)
 	// MarshalIntoBuffer appends after a dirty prefix
